@@ -229,10 +229,18 @@ class DriverShard(threading.Thread):
         return []
 
 
-def run_driver(binary, rendered, nproc=NPROC, case_timeout=20.0, stack_mb=8, max_timeouts=6):
+def run_driver(binary, rendered, nproc=NPROC, case_timeout=20.0, stack_mb=8, max_timeouts=6, together=(), solo=()):
+    """`together`: case ids that must share ONE driver process, in the given order (state leaking from one
+    transform into the next shows there); `solo`: case ids that each get a process of their own"""
     results = {}
     budget = TimeoutBudget(max_timeouts)
-    shards = [rendered[i::nproc] for i in range(nproc)]
+    special = set(together) | set(solo)
+    by_id = {c["case"]: c for c in rendered}
+    rest = [c for c in rendered if c["case"] not in special]
+    shards = [rest[i::nproc] for i in range(nproc)]
+    if together:
+        shards.append([by_id[i] for i in together if i in by_id])
+    shards += [[by_id[i]] for i in solo if i in by_id]
     ts = [DriverShard(binary, s, results, case_timeout, stack_mb, budget) for s in shards if s]
     for t in ts:
         t.start()
